@@ -51,6 +51,22 @@ def current(prog):
     return cur
 
 
+def _fn_of_loc(prog, loc):
+    file, line = loc.rsplit(":", 1)
+    line = int(line)
+    best = None
+    for f in prog.functions.values():
+        if f.blocks and f.file == file:
+            l0 = int(f.loc.rsplit(":", 1)[1])
+            if l0 <= line and (best is None or l0 > best[0]):
+                best = (l0, f.name)
+    return best[1] if best else None
+
+
+def _same_fn_after(prog, decode_loc, test_loc):
+    return _fn_of_loc(prog, decode_loc) == _fn_of_loc(prog, test_loc) and int(test_loc.rsplit(":", 1)[1]) >= int(decode_loc.rsplit(":", 1)[1])
+
+
 def regen(prog):
     cur = current(prog)
     table = []
@@ -66,6 +82,7 @@ def obligations(prog):
     table = load_table("obligations.json")
     cur = current(prog)
     obs = []
+    table_keys = {(e["function"], e["param"], e["offset"], e["kind"]) for e in table["entries"]}
     for ent in table["entries"]:
         fn, p, o, k = ent["function"], ent["param"], ent["offset"], ent["kind"]
         f = prog.functions.get(fn)
@@ -79,12 +96,23 @@ def obligations(prog):
             oo = cur.get((fn, p, kk), {})
             return (o in oo) or (None in oo) or (o is None and len(oo) > 0)
         ok = sat(k)
-        # secp256k1_scalar_set_b32_seckey(&s, b) is by definition set_b32(&s, b, &overflow) followed by the overflow and the
-        # zero test; either spelling discharges the other's obligations
-        if not ok and k in ("sc_checked", "sc_zero_test") and sat("seckey"):
+        # secp256k1_scalar_set_b32_seckey(&s, b) is by definition set_b32(&s, b, &overflow) followed by the overflow test and
+        # the zero test of the decoded scalar.  One spelling discharges the other's obligations only where that really is
+        # the same predicate:
+        #  - `sc_checked` / `sc_zero_test` by `seckey` when the reviewed tree rejected zero here too (otherwise the seckey
+        #    decode is *stricter* and would reject a zero tweak the specification accepts);
+        #  - `seckey` by `sc_checked` + a zero test in the same function, after the decode (a zero test of the *sum* inside a
+        #    tweak helper is not a zero test of the key).
+        had_zero = (fn, p, o, "sc_zero_test") in table_keys or (fn, p, None, "sc_zero_test") in table_keys or (fn, p, o, "seckey") in table_keys
+        if not ok and k == "sc_zero_test" and sat("seckey"):
+            ok, offs = True, cur.get((fn, p, "seckey"), {})
+        if not ok and k == "sc_checked" and sat("seckey") and had_zero:
             ok, offs = True, cur.get((fn, p, "seckey"), {})
         if not ok and k == "seckey" and sat("sc_checked") and sat("sc_zero_test"):
-            ok, offs = True, cur.get((fn, p, "sc_checked"), {})
+            dl = [l for ll in cur.get((fn, p, "sc_checked"), {}).values() for l in ll]
+            zl = [l for ll in cur.get((fn, p, "sc_zero_test"), {}).values() for l in ll]
+            if any(_same_fn_after(prog, a, b) for a in dl for b in zl):
+                ok, offs = True, cur.get((fn, p, "sc_checked"), {})
         oid = "R-OBL:%s:%s@%s:%s" % (fn, p, "*" if o is None else o, k)
         where = "%s[%s]" % (p, "*" if o is None else o)
         text = "data of %s must be consumed by %s" % (where, KIND_TEXT[k])
